@@ -71,6 +71,7 @@ func executeStall(t *testing.T, prop string, seed uint64, p *StallPlan) *core.Re
 		}
 		for k := lo; k <= hi; k++ {
 			curK = k
+			core.Beat()
 			res.Evals++
 			cc, fc := w.Pipe(fmt.Sprintf("c%d", k), fmt.Sprintf("f%d", k), simnet.LinkCfg{Seg: p.Seg, MaxSeg: 50, LatMinUs: 10, LatMaxUs: 300}, back)
 			cc.Write(rec[:k])
